@@ -100,6 +100,12 @@ func c51GatedHistory(rt *rapid.T, c *ev.Collector) {
 	}
 	variant := rapid.SampledFrom([]string{"cache-miss", "cache-miss", "cache-miss", "cache-invalid", "cache-hit", "renewal-in-flight"}).Draw(rt, "variant")
 	wantRSA := rapid.IntRange(0, 9).Draw(rt, "rsa") == 5
+	fault := ""
+	if (variant == "cache-miss" || variant == "cache-invalid") && rapid.IntRange(0, 2).Draw(rt, "chainFault") == 1 {
+		// the CA delivers a defective chain after a fully successful flow: the owner must fail,
+		// and so must the parked waiters and every later request on the same Manager
+		fault = rapid.SampledFrom(c51ChainFaults).Draw(rt, "chainFaultClass")
+	}
 	kinds := []string{"ecdsa-modern", "ecdsa-legacy"}
 	otherKinds := []string{"rsa-suites", "rsa-sigalgs", "rsa-nocurve"}
 	if wantRSA {
@@ -230,6 +236,9 @@ func c51GatedHistory(rt *rapid.T, c *ev.Collector) {
 		return ca.newOrders[pASCII] > 1
 	}
 	ca.mu.Lock()
+	if fault != "" {
+		ca.fault[pASCII] = fault
+	}
 	ca.getCert = m.GetCertificate
 	ca.gate = func(domain string) {
 		if domain != pASCII {
@@ -298,6 +307,17 @@ func c51GatedHistory(rt *rapid.T, c *ev.Collector) {
 		c.Inconclusive("gated history: GetCertificate calls did not finish within 90s")
 		rt.Fatalf("harness timeout in gated history")
 	}
+	// follow-up requests on the same Manager right after the (possibly failed) issuance
+	if fault != "" {
+		for i := 0; i < 2; i++ {
+			cl := mk(fmt.Sprintf("followup%d", i), pCanon, "same", kinds)
+			cl.Role = "followup"
+			callers = append(callers, cl)
+			results = append(results, c51Result{})
+			wg.Add(1)
+			run(len(callers) - 1)
+		}
+	}
 	autocert.VerifStopRenew(m) // waits for an in-flight renewal
 
 	ca.mu.Lock()
@@ -351,7 +371,7 @@ func c51GatedHistory(rt *rapid.T, c *ev.Collector) {
 		if err := c51Validate(cl.Hello, r.cert, now, func(h string) bool { return accepted[h] }, acceptedList, false); err != nil {
 			rt.Fatalf("VF-VIOLATION: property=C51 %v %s", err, desc)
 		}
-		if cl.Role != "same" {
+		if cl.Role != "same" && cl.Role != "followup" {
 			continue
 		}
 		if sameLeaf == nil {
@@ -386,6 +406,9 @@ func c51GatedHistory(rt *rapid.T, c *ev.Collector) {
 	classes := []string{"gated:" + variant, overlap, "gated:keytype=" + kt, fmt.Sprintf("gated:callers=%d", len(callers)), "batch:harness-scheduled"}
 	if hasOtherType {
 		classes = append(classes, "gated:with-other-keytype-callers")
+	}
+	if fault != "" {
+		classes = append(classes, "chainfault:"+fault+"+followup:gated-waiters", "chainfault:"+fault+"+followup:same-keytype")
 	}
 	if ordersQ > 0 {
 		classes = append(classes, "gated:with-other-name-issuance")
